@@ -1,2 +1,3 @@
 import LLRP.Props.C19
 import LLRP.Props.C16
+import LLRP.Props.C17
